@@ -161,6 +161,8 @@ def generate(rng: random.Random, tier: str) -> dict:
         "faults": faults,
         "invalid": invalid,
         "invalid_at": rng.choice(["before", "after"]),
+        # what the caller's sys.stdout is: a plain stream, or a glotaran TeeContext the caller has entered itself
+        "caller_stdout": rng.choice(["plain", "plain", "tee"]),
     }
 
 
@@ -309,8 +311,16 @@ class Run:
         from glotaran.optimization.optimize import optimize
 
         self.seams.reset(fault)
-        sentinel = S.StdoutSentinel()
         old_stdout = sys.stdout
+        sink = S.StdoutSentinel()
+        if self.plan.get("caller_stdout") == "tee":
+            from glotaran.utils.tee import TeeContext
+
+            sys.stdout = sink
+            sentinel = TeeContext()  # remembers `sink` as the stream below it
+            sentinel.getvalue = sentinel.read
+        else:
+            sentinel = sink
         sys.stdout = sentinel
         result = exc = None
         with warnings.catch_warnings(record=True) as caught:
